@@ -46,7 +46,7 @@ fn ordo(o: Option<core::cmp::Ordering>) -> Out {
     lay::ord_out(o)
 }
 
-/// `src.to_num::<T>()` family (steps base..base+5)
+/// `src.to_num::<T>()` family (steps base..base+6)
 #[allow(dead_code)]
 #[inline(always)]
 fn to_num_forms<S: VF, T: FromFixed + Copy>(st: usize, base: usize, a: S, raw: fn(T) -> u128, outs: &mut Outs) {
@@ -58,6 +58,7 @@ fn to_num_forms<S: VF, T: FromFixed + Copy>(st: usize, base: usize, a: S, raw: f
         let (v, o) = a.overflowing_to_num::<T>();
         Out::F(raw(v), o)
     });
+    step!(st, outs, base + 5, "to_num:Wrapping", Out::V(raw(substrate_fixed::Wrapping(a).to_num::<T>())));
 }
 /// `D::from_num(t)` family
 #[allow(dead_code)]
@@ -71,6 +72,7 @@ fn from_num_forms<D: VF, T: ToFixed + Copy>(st: usize, base: usize, t: T, outs: 
         let (v, o) = D::overflowing_from_num(t);
         Out::F(v.raw(), o)
     });
+    step!(st, outs, base + 5, "from_num:Wrapping", Out::V(substrate_fixed::Wrapping::<D>::from_num(t).0.raw()));
 }
 /// all six operators and partial_cmp in both operand orders (steps base..base+14)
 #[allow(dead_code)]
